@@ -286,6 +286,77 @@ theorem intoBoxed_good (P : Params) (s : RVec) (h : Heap) (hg : Good h) : Good (
   · exact dropSecret_good hs.1
   · exact good_push (dropSecret_good hs.1) trivial
 
+/-! ### the C boundary (`src/ffi/secret.rs`) -/
+
+theorem cells_length (v : RVec) : v.cells.length = v.cap := by
+  simp [RVec.cells, RVec.cap]
+
+/-- `from_secret`: nothing un-wiped is released on the way out, the caller sees exactly the secret bytes, and the block handed out
+    has NO spare capacity — its capacity is the `len` field -/
+theorem ffiFromSecret_spec (P : Params) (s : RVec) (h : Heap) (hg : Good h) :
+    Good (ffiFromSecret P s h).2 ∧ (ffiFromSecret P s h).1.len = s.data.length ∧
+    ∃ v, (ffiFromSecret P s h).1.block = some v ∧ v.data = s.data ∧ v.spare = [] ∧ v.cap = (ffiFromSecret P s h).1.len := by
+  have hs := shrinkToFit_spec P s h hg
+  have hsp : (shrinkToFit P s h).1.spare = [] := List.length_eq_zero_iff.mp hs.2.2
+  refine ⟨intoVec_good _ _ hs.1, ?_, (shrinkToFit P s h).1, rfl, hs.2.1, hsp, ?_⟩
+  · simp [ffiFromSecret, RVec.len, hs.2.1]
+  · simp [ffiFromSecret, RVec.len, RVec.cap, hsp]
+
+/-- `askar_buffer_free` of a buffer whose block has exactly `len` cells: the log stays good -/
+theorem ffiBufferFree_good (b : FfiBuf) (h : Heap) (hg : Good h) (hb : ∀ v, b.block = some v → v.cap = b.len) :
+    Good (ffiBufferFree b h) := by
+  unfold ffiBufferFree
+  split
+  · exact hg
+  · next v hv =>
+    split
+    · exact hg
+    · apply good_push hg
+      have hc : v.cells.length = b.len := by rw [cells_length]; exact hb v hv
+      have : List.drop b.len v.cells = [] := List.drop_eq_nil_of_le (by omega)
+      simp only [Event.Strict, this, List.append_nil]
+      exact clean_replicate _
+
+theorem overwrite_cap (b : FfiBuf) (d : List UInt8) (hb : ∀ v, b.block = some v → v.cap = b.len) :
+    ∀ v, (b.overwrite d).block = some v → v.cap = (b.overwrite d).len := by
+  intro v hv
+  unfold FfiBuf.overwrite at hv ⊢
+  cases hbl : b.block with
+  | none => simp [hbl] at hv
+  | some w =>
+    simp only [hbl] at hv ⊢
+    split at hv
+    · next hd =>
+      simp only [Option.some.injEq] at hv
+      subst hv
+      simp only [hd, if_true]
+      have := hb w hbl
+      simp only [RVec.cap] at this ⊢; omega
+    · next hd =>
+      simp only [hd, if_false]
+      exact hb v hv
+
+theorem ffiRoundTrip_good (P : Params) (s : RVec) (h : Heap) (hg : Good h) : Good (ffiRoundTrip P s h) := by
+  obtain ⟨h1, _, v, hv, _, _, hc⟩ := ffiFromSecret_spec P s h hg
+  unfold ffiRoundTrip
+  apply ffiBufferFree_good _ _ h1
+  intro w hw
+  rw [hv] at hw
+  cases hw
+  exact hc
+
+/-- … and the block IS released, whole: a `free` event of exactly `len` wiped cells -/
+theorem ffiRoundTrip_frees (P : Params) (s : RVec) (h : Heap) (hg : Good h) (hs : s.data ≠ []) :
+    ∃ id, Event.free id (List.replicate s.data.length none) ∈ (ffiRoundTrip P s h).log := by
+  obtain ⟨_, hl, v, hv, hd, hsp, _⟩ := ffiFromSecret_spec P s h hg
+  have hlen : s.data.length ≠ 0 := fun h0 => hs (List.length_eq_zero_iff.mp h0)
+  refine ⟨v.id, ?_⟩
+  unfold ffiRoundTrip ffiBufferFree
+  generalize ffiFromSecret P s h = r at hl hv
+  have hdrop : List.drop s.data.length v.cells = [] :=
+    List.drop_eq_nil_of_le (by simp [RVec.cells, hd, hsp])
+  simp only [hv, hl, hlen, if_false, Heap.push, hdrop, List.append_nil, List.mem_cons, true_or]
+
 /-! ### runs -/
 
 theorem step_good (P : Params) (hP : P.Sound) (st : St) (op : Op) (hg : Good st.heap) : Good (step P st op).1.heap := by
@@ -316,6 +387,11 @@ theorem step_good (P : Params) (hP : P.Sound) (st : St) (op : Op) (hg : Good st.
     split
     · exact hg
     · exact intoBoxed_good P _ st.heap hg
+  | ffiFree i =>
+    simp only [step]
+    split
+    · exact hg
+    · exact ffiRoundTrip_good P _ st.heap hg
 
 theorem run_good (P : Params) (hP : P.Sound) (ops : List Op) (st : St) (hg : Good st.heap) : Good (run P st ops).heap := by
   induction ops generalizing st with
@@ -381,6 +457,11 @@ theorem step_data (P : Params) (hP : P.Sound) (st : St) (op : Op) (hg : Good st.
     | none => simp
     | some s => simp [map_eraseIdx']
   | intoBoxed i =>
+    simp only [step, specStep, List.getElem?_map]
+    cases hsi : st.slots[i]? with
+    | none => simp
+    | some s => simp [map_eraseIdx']
+  | ffiFree i =>
     simp only [step, specStep, List.getElem?_map]
     cases hsi : st.slots[i]? with
     | none => simp
